@@ -70,7 +70,8 @@ def gen(seed: int, tier: str) -> dict[str, Any]:
     # how the server treats the client's DisconnectRequest: answers, stays silent (the client waits 1 s), answers late
     disc = rng.choice(["ok", "ok", "drop", "late"])
     return {"seed": seed, "tier": "S", "config": {"transport": transport, "batch": 1, "route_back": rng.random() < 0.2,
-                                                  "disc": disc},
+                                                  "disc": disc, "ind_cb": rng.random() < 0.6,
+                                                  "ind_same": rng.random() < 0.6},
             "reqs": reqs, "ops": ops}
 
 
@@ -169,7 +170,12 @@ def run(plan: dict[str, Any]) -> dict[str, Any]:
             fr, key, v = wrong(rng.choice(["other_property", "other_instance", "other_type"]))
             srv_send(ch, fr, 0.003, key=key, value=v)
         if ans == "ind_then_ok":
-            srv_send(ch, bytes((0xF7, 0x00, 0x0B, 0x01, 0x45, 0x10, 0x01, 0xAA)), 0.002)
+            # a server-initiated indication while the request is outstanding - for another property or (ind_same) for the very
+            # property being requested, which only its message code tells apart from the answer
+            if cfg.get("ind_same"):
+                srv_send(ch, prop(0xF7, obj, inst, pid, 1, b"\xaa"), 0.002)
+            else:
+                srv_send(ch, bytes((0xF7, 0x00, 0x0B, 0x01, 0x45, 0x10, 0x01, 0xAA)), 0.002)
         fr, key, v = good()
         srv_send(ch, fr, lat if ans != "late" else 10.5, key=key, value=v)
         if ans == "twice":
@@ -187,7 +193,8 @@ def run(plan: dict[str, Any]) -> dict[str, Any]:
         gw.script["disconnect"] = [{"k": "drop"} if cfg["disc"] == "drop" else {"lat": 0.6}]
 
     async def main():
-        ind_cb = lambda c: indications.append(c.to_knx())
+        # the indication callback is optional (constructor default: None)
+        ind_cb = (lambda c: indications.append(c.to_knx())) if cfg.get("ind_cb", True) else None
         if tr == "udp":
             conn = UDPDeviceManagementConnection(gw.ip, gw.port, net.local_ip, route_back=cfg["route_back"], indication_callback=ind_cb)
         elif tr == "tcp":
@@ -253,7 +260,11 @@ def run(plan: dict[str, Any]) -> dict[str, Any]:
                 R.extra_faults["user_disconnect"] += 1
             elif k == "indication":
                 if gw.last_cid in gw.channels:
-                    gw.send_request(gw.last_cid, bytes((0xF7, 0x00, 0x0B, 0x01, 0x45, 0x10, 0x01, 0xBB)))
+                    if cfg.get("ind_same") and reqs:
+                        r0 = reqs[0]
+                        gw.send_request(gw.last_cid, prop(0xF7, r0["obj"], r0["inst"], r0["pid"], 1, b"\xbb"))
+                    else:
+                        gw.send_request(gw.last_cid, bytes((0xF7, 0x00, 0x0B, 0x01, 0x45, 0x10, 0x01, 0xBB)))
                     R.extra_faults["indication"] += 1
 
         for op in plan["ops"]:
